@@ -12,14 +12,20 @@ import (
 	"golang.org/x/tools/go/ssa/ssautil"
 )
 
-const repoDir = "/repo"
+// repoDir: the tree under check (/repo; VERIF_REPO overrides it for seeded-change experiments on a scratch copy)
+var repoDir = func() string {
+	if d := os.Getenv("VERIF_REPO"); d != "" {
+		return d
+	}
+	return "/repo"
+}()
 const modPath = "github.com/veraison/psatoken"
 
 // overlayFiles maps virtual paths under /repo to real harness files under /verif/harness.
 // Files in harness/common are injected into both packages with the package clause rewritten.
 func overlayFiles(verifDir string) (map[string]string, error) {
 	out := map[string]string{}
-	gen := filepath.Join(verifDir, "out", "gen")
+	gen := filepath.Join(scratchDir(verifDir), "out", "gen")
 	os.MkdirAll(gen, 0o755)
 	for _, pk := range []struct{ dir, pkg, sub string }{{"psatoken", "psatoken", ""}, {"encoding", "encoding", "encoding"}} {
 		// common files
@@ -58,7 +64,7 @@ func writeOverlayJSON(verifDir string, ov map[string]string) (string, error) {
 		fmt.Fprintf(&sb, "%q:%q", k, v)
 	}
 	sb.WriteString("}}")
-	p := filepath.Join(verifDir, "out", "overlay.json")
+	p := filepath.Join(scratchDir(verifDir), "out", "overlay.json")
 	return p, os.WriteFile(p, []byte(sb.String()), 0o644)
 }
 
@@ -119,4 +125,14 @@ func lookupNamed(pkgs map[string]*ssa.Package, pkg, name string) types.Type {
 		return nil
 	}
 	return o.Type()
+}
+
+// scratchDir: where out/, evidence/ and replays/ are written (the /verif directory itself;
+// VERIF_SCRATCH redirects them for seeded-change experiments that must not touch the
+// committed evidence).
+func scratchDir(verifDir string) string {
+	if d := os.Getenv("VERIF_SCRATCH"); d != "" {
+		return d
+	}
+	return verifDir
 }
